@@ -14,6 +14,7 @@ transforms:
   combo      the six above applied together
   swapadj    adjacent independent call-free assignments swapped
   dropelse   else after a branch that always returns / raises removed (its body follows the if)
+  extractvar keyword arguments that are calls / arithmetic computed into a temporary right before the statement
   addelse    the inverse: statements after such an if moved into an else
   rename     every purely local variable v of a function renamed v_r  (parameters, globals, closure variables untouched)
 """
@@ -242,6 +243,45 @@ class AddElse(ast.NodeTransformer):
         return node
 
 
+class ExtractVar(ast.NodeTransformer):
+    """keyword arguments that are calls / arithmetic are computed into a temporary right before the statement:  f(a=g(x))  ->  _t0 = g(x); f(a=_t0)
+    (only for assignments / returns / expression statements whose value is that call, so evaluation order is preserved)"""
+
+    def __init__(self):
+        self.k = 0
+
+    def _block(self, body):
+        out = []
+        for st in body:
+            call = None
+            if isinstance(st, (ast.Assign, ast.Return, ast.Expr)) and isinstance(getattr(st, "value", None), ast.Call):
+                call = st.value
+            if call is not None and call.keywords and all(k.arg is not None for k in call.keywords) and not any(isinstance(a, ast.Starred) for a in call.args):
+                for kw in call.keywords:
+                    if isinstance(kw.value, (ast.Call, ast.BinOp, ast.Subscript)) and not any(isinstance(x, (ast.Lambda, ast.NamedExpr, ast.Yield, ast.Await)) for x in ast.walk(kw.value)):
+                        nm = f"_t{self.k}"
+                        self.k += 1
+                        out.append(ast.Assign(targets=[ast.Name(id=nm, ctx=ast.Store())], value=kw.value, lineno=st.lineno))
+                        kw.value = ast.Name(id=nm, ctx=ast.Load())
+            out.append(st)
+        return out
+
+    def generic_visit(self, node):
+        super().generic_visit(node)
+        for fld in ("body", "orelse", "finalbody"):
+            blk = getattr(node, fld, None)
+            if isinstance(blk, list) and blk and isinstance(blk[0], ast.stmt):
+                setattr(node, fld, self._block(blk))
+        if isinstance(node, ast.Try):
+            for h in node.handlers:
+                h.body = self._block(h.body)
+        return node
+
+    def visit_FunctionDef(self, node):
+        self.k = 0
+        return self.generic_visit(node)
+
+
 class Combo(ast.NodeTransformer):
     """all of the above, one after the other"""
 
@@ -252,7 +292,7 @@ class Combo(ast.NodeTransformer):
         return tree
 
 
-TRANSFORMS = {"flipcmp": FlipCmp, "commute": Commute, "retvar": RetVar, "kworder": KwOrder, "ifinvert": IfInvert, "rename": Rename, "combo": Combo, "swapadj": SwapAdj, "dropelse": DropElse, "addelse": AddElse}
+TRANSFORMS = {"flipcmp": FlipCmp, "commute": Commute, "retvar": RetVar, "kworder": KwOrder, "ifinvert": IfInvert, "rename": Rename, "combo": Combo, "swapadj": SwapAdj, "dropelse": DropElse, "addelse": AddElse, "extractvar": ExtractVar}
 
 
 def transformed_sources(tname):
